@@ -95,6 +95,71 @@ pub fn check(_ctx: &Ctx, input: &Input) -> CaseResult {
             ));
         }
     }
+    // witness checks for escalations the validator does not gate (named in
+    // the property statement)
+    if let (Ok(di), Ok(do_)) = (crate::decode::decode(&p.bytes), crate::decode::decode(&b)) {
+        let lacks = |f: u32| minimal & f == 0;
+        if lacks(feat::BULK_MEMORY) && lacks(feat::REF_TYPES) {
+            let input_needs_count = di.datas.iter().any(|d| matches!(d.mode, crate::decode::DataMode::Passive))
+                || di.funcs.iter().any(|f| f.ops.iter().any(|o| o.name == "MemoryInit" || o.name == "DataDrop"));
+            if do_.data_count.is_some() && di.data_count.is_none() && !input_needs_count {
+                return Err(Failure::new(
+                    "witness:data-count-section-added",
+                    format!("input has no passive data segment, no memory.init/data.drop and no data-count section; the output has a data-count section [{}]", p.origin),
+                ));
+            }
+            if let Some((i, e)) = do_.elems.iter().enumerate().find(|(_, e)| e.flag != 0) {
+                if di.elems.iter().all(|e| e.flag == 0) {
+                    return Err(Failure::new(
+                        "witness:element-segment-encoding",
+                        format!("output element segment {} uses flag {} although every input segment used the MVP encoding (flag 0) [{}]", i, e.flag, p.origin),
+                    ));
+                }
+            }
+            if let Some((i, d)) = do_.datas.iter().enumerate().find(|(_, d)| d.flag != 0) {
+                if di.datas.iter().all(|d| d.flag == 0) {
+                    return Err(Failure::new(
+                        "witness:data-segment-encoding",
+                        format!("output data segment {} uses flag {} although every input segment used flag 0 [{}]", i, d.flag, p.origin),
+                    ));
+                }
+            }
+        }
+        if lacks(feat::MULTI_VALUE) {
+            let in_has = di.funcs.iter().any(|f| f.ops.iter().any(|o| matches!(o.imms.first(), Some(crate::ops::Imm::Block(crate::ops::BlockTy::Func(_))))));
+            if !in_has {
+                for (fi, f) in do_.funcs.iter().enumerate() {
+                    if let Some(o) = f.ops.iter().find(|o| matches!(o.imms.first(), Some(crate::ops::Imm::Block(crate::ops::BlockTy::Func(_))))) {
+                        return Err(Failure::new(
+                            "witness:block-type-through-type-section",
+                            format!("output function {} has {} although the input uses only inline block types [{}]", fi, o.short(), p.origin),
+                        ));
+                    }
+                }
+            }
+        }
+        // immediates must keep their minimal (single-byte where MVP demands) encoding
+        if lacks(feat::REF_TYPES) && lacks(feat::MULTI_MEMORY) {
+            for (fi, f) in do_.funcs.iter().enumerate() {
+                for w in f.ops.windows(2) {
+                    let (o, next) = (&w[0], &w[1]);
+                    let len = next.offset - o.offset;
+                    let bytes_of = &b[o.offset..next.offset];
+                    let bad = match o.name {
+                        "MemorySize" | "MemoryGrow" => len != 2 || bytes_of[1] != 0,
+                        "CallIndirect" => *bytes_of.last().unwrap() != 0 || bytes_of[len - 2] & 0x80 != 0 && len < 3,
+                        _ => false,
+                    };
+                    if bad {
+                        return Err(Failure::new(
+                            "witness:multi-byte-table-or-memory-immediate",
+                            format!("output function {}: {} is encoded as {:02x?} [{}]", fi, o.short(), bytes_of, p.origin),
+                        ));
+                    }
+                }
+            }
+        }
+    }
     out.label(format!("minimal-set-size:{}", minimal.count_ones()));
     if minimal == 0 {
         out.label("input-is-mvp");
